@@ -102,6 +102,15 @@ func (fsm *FSM) applyRobustMessage(msg *robust.Message, i *ircserver.IRCServer, 
 		}
 
 	case robust.IRCFromClient:
+		// The same message can end up in the log more than once: when a
+		// client does not get a reply to its POST (e.g. because the leader
+		// failed after appending the message), it retries with the same
+		// ClientMessageId, and handlePostMessage only recognizes the retry
+		// once the first copy was applied on that node.
+		if msg.ClientMessageId != 0 && i.LastPostMessage(msg.Session) == msg.ClientMessageId {
+			log.Printf("Skipping duplicate of client message id %d (session %d)\n", msg.ClientMessageId, msg.Session.Id)
+			return nil
+		}
 		// Need to do this first, because ircserver.ProcessMessage could delete
 		// the session, e.g. by using KILL or QUIT.
 		if err := i.UpdateLastClientMessageID(msg); err != nil {
